@@ -116,6 +116,18 @@ def drv_utility(tier, rng):
 
 
 
+def shuffle_group(method, mp, p, n=4):
+    """24 requests that differ in the heuristic's seed only, seeded-random order asked for, identical alternatives"""
+    known = [{'id': ALT[i], 'criteria': {'c1': UNIT}} for i in range(n)]
+    g = []
+    for sd in range(24):
+        m2 = dict(mp, randomSeed=11 + 37 * sd, randomAlternativesOrdering=True)
+        req = {'preferenceFunction': method, 'knownAlternatives': copy.deepcopy(known), 'choseToMake': [a['id'] for a in known],
+               'criteria': [crit(0, 'gain')], 'methodParameters': m2, 'biases': []}
+        g.append(base_case(req, refmax=4, pin=True, group={'id': 'x', 'rel': 'shuffle', 'p': p}))
+    return g
+
+
 # ---------------------------------------------------------------- majority
 def heur_req(rng, method, n, m, vals, extra_known=0, types=None, unit=UNIT):
     tab = [[unit * rng.choice(vals) for _ in range(m)] for _ in range(n + extra_known)]
@@ -147,6 +159,10 @@ def drv_majority(tier, rng):
         req = heur_req(rng, 'majorityHeuristic', n, m, [0, 1, 2] if rng.random() < 0.6 else [0, 1, 2, 3, 5, 8], extra, unit=unit)
         mp = {'weights': {CRIT[j]: (rng.choice([1, 2, 3, 3, 4, 6, 7]) if dec else UNIT * rng.choice([1, 1, 2, 3])) for j in range(m)},
               'randomSeed': rng.randint(0, 10 ** 6)}
+        if not dec and rng.random() < 0.2:     # any weights: zero and negative ones count like the others
+            for j in range(m):
+                if rng.random() < 0.5:
+                    mp['weights'][CRIT[j]] = UNIT * rng.choice([0, -1, -2, -3])
         pol = rng.choice(['allow', 'current', 'newer', 'random', None])
         if pol:
             mp['drawResolution'] = pol
@@ -170,6 +186,7 @@ def drv_majority(tier, rng):
         mp['currentChoice'] = req['knownAlternatives'][n]['id'] if extra and rng.random() < 0.5 else rng.choice(req['choseToMake'])
         req['methodParameters'] = mp
         groups.append([base_case(req, exactprop='C11', refmax=5)])
+    groups.append(shuffle_group('majorityHeuristic', {'weights': {'c1': UNIT}, 'drawResolution': 'current'}, 'C11'))
     # targeted: scores that are equal as numbers but differ in the last float bit (0.1 + 0.2 vs 0.3, 0.1 + 0.2 + 0.4 vs 0.7),
     # on either side, under every draw policy
     for ws in ([1, 2, 3], [3, 1, 2], [1, 2, 4, 7], [7, 4, 2, 1], [2, 4, 6], [1, 6, 7]):
@@ -238,12 +255,16 @@ def drv_aspect(tier, rng):
                     c['valuesRange'] = {'min': 0, 'max': UNIT * vmax * 2}
         fn, params = level_source(rng, 'inc', CRIT[:m], types, vmax)
         ws = rng.sample([1, 2, 3, 5], m) if rng.random() < 0.7 else [rng.choice([1, 2]) for _ in range(m)]
+        if rng.random() < 0.25:      # distinct weights of any sign: the lightest criteria are still checked, last
+            ws = rng.sample([-3, -1, 0, 1, 2, 4], m)
         mp = {'function': fn, 'params': params, 'weights': {CRIT[j]: UNIT * ws[j] for j in range(m)},
               'randomSeed': rng.randint(0, 10 ** 6)}
         if rng.random() < 0.25:
             mp['randomAlternativesOrdering'] = True
         req['methodParameters'] = mp
         groups.append([base_case(req, refmax=4)])
+    # all four alternatives fail the first check: the ranking is the reverse of the walk order
+    groups.append(shuffle_group('aspectEliminationHeuristic', {'function': 'thresholds', 'params': {'thresholds': [{'c1': 2 * UNIT}]}, 'weights': {'c1': UNIT}}, 'C12'))
     return groups
 
 
@@ -283,6 +304,8 @@ def drv_satisfaction(tier, rng):
         mp['currentChoice'] = req['knownAlternatives'][n]['id'] if extra and rng.random() < 0.5 else rng.choice(req['choseToMake'])
         req['methodParameters'] = mp
         groups.append([base_case(req, refmax=5)])
+    # all four alternatives meet the first level: the ranking is the search order
+    groups.append(shuffle_group('satisfactionHeuristic', {'function': 'thresholds', 'params': {'thresholds': [{'c1': 0}]}}, 'C13'))
     return groups
 
 
@@ -355,6 +378,8 @@ def drv_electre(tier, rng):
             ka = req['knownAlternatives']
             ka[1]['criteria'] = dict(ka[0]['criteria'])
         g = []
+        if rng.random() < 0.15:     # an entry for a criterion that is not declared is allowed input and takes no part
+            req['methodParameters']['electreCriteria']['zz_undeclared'] = {'k': UNIT * rng.choice([1, 4, 20])}
         variants = perm_twins(rng, req, 'C06', 1) + [scaled(req, 2, 1), scaled(req, 1, 4), scaled_pow2(req, rng.choice([-30, -24, -20, 10]))]
         for r in variants:
             g.append(base_case(r, sa=f[2], sb=f[3], failprop='C05', group={'id': 'x', 'rel': 'perm', 'p': 'C06'}))
@@ -421,7 +446,7 @@ def drv_pipeline(tier, rng):
         sq = rng.choice([['criteriaConcealment'], ['criteriaConcealment'], ['criteriaMixing'], ['criteriaOmission', 'criteriaConcealment'],
                          ['preferenceReversal', 'criteriaConcealment'], ['criteriaConcealment', 'criteriaMixing']])
         req = pipeline.pipeline_case(rng, mth, list(sq), n=rng.randint(3, 5))
-        groups.append([pcase(r, probe=False, group={'id': 'x', 'rel': 'perm', 'p': 'C04'}) for r in perm_twins(rng, req, 'C04', 2)])
+        groups.append([pcase(r, probe=False, pin=True, group={'id': 'x', 'rel': 'perm', 'p': 'C04'}) for r in perm_twins(rng, req, 'C04', 2)])
     # the same criterion-adding bias three and four times in one request: generated ids must stay unique (C07, C18)
     for _ in range(reps):
         for mth in pipeline.METHODS:
@@ -453,7 +478,7 @@ def drv_pipeline(tier, rng):
         for sd in range(300 if tier == 'quick' else 3000):
             r = copy.deepcopy(base)
             r['biases'] = [{'name': 'criteriaOmission', 'props': {'ratio': pipeline.PU // 2, 'max': 1, 'ordering': ordering, 'randomSeed': 17 + sd * 101}}]
-            g.append(pcase(r, probe=False, methodref=False, group={'id': 'x', 'rel': 'c15freq', 'p': 'C15', 'ordering': ordering}))
+            g.append(pcase(r, probe=False, methodref=False, pin=True, group={'id': 'x', 'rel': 'c15freq', 'p': 'C15', 'ordering': ordering}))
         groups.append(g)
     # seeded reference-criterion strategies over many seeds (C18): importance 1 : 4 : 16, ranges 1 : 2 : 4 identify the reference
     for strategy in ('randomUniform', 'randomWeighted'):
@@ -467,8 +492,26 @@ def drv_pipeline(tier, rng):
             r = copy.deepcopy(base)
             r['biases'] = [{'name': 'criteriaConcealment', 'props': {'randomSeed': 5, 'referenceCriterionType': strategy,
                                                                      'newCriterionRandomSeed': {'int': 23 + sd * 97}}}]
-            g.append(pcase(r, probe=False, methodref=False, group={'id': 'x', 'rel': 'c18freq', 'p': 'C18', 'strategy': strategy}))
+            g.append(pcase(r, probe=False, methodref=False, pin=True, group={'id': 'x', 'rel': 'c18freq', 'p': 'C18', 'strategy': strategy}))
         groups.append(g)
+    # importances closer than 1e-6 are still different importances (C15 / C16 orderings): unit 2^24, weights W+2, W, W+1
+    FU = 1 << 24
+    for mth in ('majorityHeuristic', 'aspectEliminationHeuristic', 'electreIII'):
+        for ordering in ('weakest', 'strongest'):
+            for bias in ('criteriaOmission', 'preferenceReversal'):
+                W = FU * rng.choice([1, 2]) // 3
+                ws = {'c1': W + 2, 'c2': W, 'c3': W + 1}
+                known = [{'id': ALT[i], 'criteria': {c: FU * rng.choice([1, 2, 3, 4]) for c in ws}} for i in range(3)]
+                if mth == 'majorityHeuristic':
+                    mp = {'weights': ws, 'drawResolution': 'allow'}
+                elif mth == 'aspectEliminationHeuristic':
+                    mp = {'weights': ws, 'function': 'thresholds', 'params': {'thresholds': [{c: 2 * FU for c in ws}]}}
+                else:
+                    mp = {'electreCriteria': {c: {'k': w} for c, w in ws.items()}, 'electreDistillation': {'a': -(FU // 8), 'b': FU // 4}}
+                req = {'preferenceFunction': mth, 'knownAlternatives': known, 'choseToMake': [a['id'] for a in known],
+                       'criteria': [{'id': c, 'type': 'gain'} for c in ('c1', 'c2', 'c3')], 'methodParameters': mp,
+                       'biases': [{'name': bias, 'props': {'ratio': FU // 2, 'max': 1, 'min': 1, 'ordering': ordering}}]}
+                groups.append([pcase(req, unit=FU, probe=False, methodref=False, pin=True, notwin=True)])
     # single omissions that do remove something (second pass compares with the reduced request, C15)
     for mth in pipeline.METHODS:
         for _ in range(10 if tier == 'quick' else 150):
@@ -666,7 +709,7 @@ def drv_c09(tier, rng):
             bad = rng.choice(list(service.bias_mutations(rng, first)) + list(service.mutations(rng, first)))
             hist.insert(rng.randint(1, len(hist)), dict(bad[1], _expect=bad[2]))
         hist.append(copy.deepcopy(first))
-        via = rng.choice(['lib', 'libexact'])
+        via = rng.choice(['lib', 'libexact', 'http', 'http'])      # http: through the real handler (decoding, pooling, recover)
         g = [pcase({k: v for k, v in r.items() if k != '_expect'}, via=via, failprop='C09', expect=('any' if '_expect' in r else 'ok'),
                    group={'id': 'x', 'rel': 'samereq', 'p': 'C09'}) for r in hist]
         groups.append(g)
@@ -702,7 +745,7 @@ def twins_omission(obs):
     for i, o in enumerate(obs):
         c = o['case']
         bs = c['req'].get('biases', [])
-        if o.get('status') != 200 or len(bs) != 1 or bs[0]['name'] != 'criteriaOmission' or 'group' in c:
+        if o.get('status') != 200 or len(bs) != 1 or bs[0]['name'] != 'criteriaOmission' or 'group' in c or c.get('notwin'):
             continue
         if 'zz_undeclared' in json.dumps(c['req']['methodParameters']):
             continue
@@ -828,6 +871,22 @@ def drv_repeat(tier, rng):
                     nud.append({'alt': a['id'], 'crit': c, 'k': rng.choice([0, 1, 2, 3, 5]), 'e': 20})
             rid += 1
             groups.append([{'fam': 'repeat', 'unit': pipeline.PU, 'rid': 'r%d' % rid, 'req': req, 'nudge': nud, 'repeat': 12 if tier == 'quick' else 40}])
+    # map-shaped parameters whose keys collide after normalisation (one criteria union spelled in two orders, with two
+    # different capacities): whatever the answer is - the pinned code rejects them - it must be the same every time
+    for _ in range(4 if tier == 'quick' else 20):
+        req = pipeline.gen_data(rng, 'choquetIntegral', n=3, m=3, extra=0, positive=True)
+        w = req['methodParameters']['weights']
+        cs = sorted(c['id'] for c in req['criteria'])
+        full = ','.join(cs)
+        w.pop(full, None)
+        w[','.join([cs[1], cs[0], cs[2]])] = pipeline.PU // 4
+        w[','.join([cs[2], cs[1], cs[0]])] = pipeline.PU
+        if rng.random() < 0.5:
+            pair = ','.join(cs[:2])
+            w.pop(pair, None)
+            w[','.join([cs[1], cs[0]])] = pipeline.PU // 2
+        rid += 1
+        groups.append([{'fam': 'repeat', 'unit': pipeline.PU, 'rid': 'r%d' % rid, 'req': req, 'repeat': 12 if tier == 'quick' else 40}])
     # rejected and unusual requests of the service catalogue, interleaved: error paths must not leave anything behind
     for c in [c for c in service.catalogue('quick', rng) if c['label'] != 'bytes'][::2 if tier == 'quick' else 1]:
         rid += 1
@@ -913,6 +972,17 @@ def drv_levels_decimal(tier, rng):
             valid = 0 < co < DU and 0 <= lo <= DU and 0 <= hi <= DU
         else:
             valid = 0 < co < DU and 0 < lo <= DU and 0 < hi <= DU
+        if valid:       # the harness walks at most 2000 levels: leave out finite series longer than that (0.5 x 0.999^n down to 0.001 ...)
+            r, n = (lo if d == 'inc' else hi) / DU, 0
+            c = co / DU
+            while n <= 1500 and (r < hi / DU if d == 'inc' else r > lo / DU):
+                if d == 'inc':
+                    r = min((1 + r) * (1 + c) - 1, 1) if mode == 'idealMultipliedCoefficient' else min(r + c, 1)
+                else:
+                    r = r * c if mode == 'idealMultipliedCoefficient' else max(r - c, 0)
+                n += 1
+            if n > 1500:
+                continue
         crits, alts_ = rng.choice(data)
         groups.append([{'fam': 'Levels', 'unit': DU, 'valid': valid, 'exact': False, 'nocount': True,
                         'lv': {'dir': d, 'function': mode, 'params': {'coefficient': co, 'minValue': lo, 'maxValue': hi},
